@@ -53,6 +53,18 @@ NAMES = ['name', 'val', 'third']
 BNAMES = ['jk', 'jv']
 
 
+REG_IDS = [('t', 'b'), ('a', 'B'), ('A', 'j2'), ('People', 'Other'), ('people', 'People'), ('b', 'a'), ('T1', 't1'), ('input.csv', 'join.csv')]
+
+
+def id_variants(i):
+    """table ids a sloppy lookup could confuse with i: other letter case, a proper prefix, an extension"""
+    out = []
+    for v in (i.lower(), i.upper(), i.swapcase(), i[:1].upper() + i[1:].lower(), i[:-1], i + 'x', 'x' + i):
+        if v and v != i and v not in out:
+            out.append(v)
+    return out
+
+
 def render(q, join_id='b'):
     if q.get('where') == ('raw_parse_error',):
         return "select a1 where a1 = 'x'"
@@ -134,6 +146,22 @@ def run_api_entry_points(res, q, A, hdr, exp, scratch):
     except Exception as e:
         err = err_class(e)
     judge(res, 'query_TableIterator', q, text, A, hdr, exp, out if err is None else None, w.header, err)
+    # E2b registry mode: no fixed input iterator, the input table comes from `FROM <id>` and the join table from `JOIN <id>`, both resolved by exact id in a user ListTableRegistry
+    # that also holds case-variant and same-prefix distractor tables (before and after the right one)
+    if q.get('where') != ('raw_parse_error',):
+        decoyA, decoyB = [['DECOY'] * len(A[0])] * 2 if A else [['DECOY']], [['k', 'DECOY'], ['m', 'DECOY'], ['DECOY', 'DECOY']]
+        for in_id, join_id in REG_IDS:
+            tr = render(q, join_id) + ' FROM ' + in_id
+            for before in (True, False):
+                infos = [eng.ListTableInfo(in_id, qcheck.copy_table(A), an)] + ([eng.ListTableInfo(join_id, qcheck.copy_table(B), bn)] if useB else [])
+                decoys = [eng.ListTableInfo(v, decoyA, an) for v in id_variants(in_id) if v != join_id] + [eng.ListTableInfo(v, decoyB, bn) for v in id_variants(join_id) if v != in_id and v not in id_variants(in_id)]
+                out, err = [], None
+                w = eng.TableWriter(out)
+                try:
+                    eng.query(tr, None, w, [], eng.ListTableRegistry(decoys + infos if before else infos + decoys))
+                except Exception as e:
+                    err = err_class(e)
+                judge(res, 'query_registry_from', q, tr, A, hdr, exp, out if err is None else None, w.header, err, {'input_id': in_id, 'join_id': join_id, 'decoys_first': before, 'decoy_ids': [d.table_id for d in decoys]})
     # E3 the checker's own plain classes
 
     class MyIt(eng.RBQLInputIterator):
@@ -516,7 +544,7 @@ def main(tier, seed):
              'the CLI in-process under 6 configurations x {file, stdin->stdout} with special-cell tables for explicit policies, and real `python -m rbql` subprocesses rotating over all configurations; non-trivial = a successful run that agrees with RefQL',
         assumptions=['results are compared after str(); expressions are type-agnostic over string cells', 'child processes run with PYTHONWARNINGS=ignore (Python 3.12 prints its own SyntaxWarning when compiling rbql_engine.py from source)'],
         extra={'cli_configurations': [list(c[:3]) + [cfg_enc(c)] for c in CLI_CFGS]},
-        min_features={'ep_query_table': 100, 'ep_query_custom_classes': 100, 'ep_query_csv': 100, 'ep_query_csv_comment_prefix': 100, 'ep_pandas': 100, 'ep_sqlite_to_csv': 50, 'ep_cli_inprocess_file': 300, 'ep_cli_inprocess_stdin': 300,
+        min_features={'ep_query_table': 100, 'ep_query_registry_from': 1000, 'ep_query_custom_classes': 100, 'ep_query_csv': 100, 'ep_query_csv_comment_prefix': 100, 'ep_pandas': 100, 'ep_sqlite_to_csv': 50, 'ep_cli_inprocess_file': 300, 'ep_cli_inprocess_stdin': 300,
                       'ep_cli_subprocess_file': 30, 'ep_cli_subprocess_stdin': 30, 'cli_failures_ok': 20, 'failing_agree': 20})
 
 
